@@ -211,14 +211,14 @@ template <class T> static void mix_p(pbt::Ctx& c) { arc_prop<T, M_MIX>(c); }
 #define PAIR_RULE "pairs of unit quaternions rounded to T (identity / axis / coordinate rotations / rational / random / mixed-magnitude x; y = cos(theta) x + sin(theta) d with d orthogonal to x) at separations theta log-uniform " \
 	"1e-9..pi/2 from parallel and from antipodal, around the linear-fallback threshold sqrt(2 eps) on both sides (factor 0.01..100, +-2^-30), around pi/2 (sign flip), uniform, independent pairs, exactly equal / antipodal / orthogonal; " \
 	"a in {0, 1, 1/2, neighbours within 4 ulps, k/8, uniform [0,1], uniform [-2,3]}; "
-REG2(slerp_p, "slerp", 2500000, 40000000,
+REG2(slerp_p, "slerp", 2500000, 100000000,
      PAIR_RULE "result against the long-double arc point: unit length, in span{x,y}, angle a*theta on the shorter arc to +-y, end points to 12 u per component, finite for every pair, slerp(x,y,a) = +-slerp(y,x,1-a); "
      "non-trivial = theta in (1e-6, pi-1e-6), a not in {0,1}, bound < 1e-2");
-REG2(spin_p, "slerp-spin", 2500000, 40000000,
+REG2(spin_p, "slerp-spin", 2500000, 100000000,
      PAIR_RULE "spin count k in -3..3 (as int and as short); angle a*(theta + k pi) from x on the great circle through x and +-y (shorter arc end point), unit length, in-plane, finite, symmetry up to sign; "
      "below the linear-fallback threshold the formula bound (1/sin^2 theta) decides nothing, there a gross check asks that the spins are not lost when the axis is well determined; "
      "non-trivial = k != 0, theta in (1e-6, pi-1e-6), a not in {0,1}, bound < 1e-2 (or the gross check applied)");
-REG2(mix_p, "mix", 2500000, 40000000,
+REG2(mix_p, "mix", 2500000, 100000000,
      PAIR_RULE "oriented arc from x to y (no sign flip, theta up to pi): unit length, in-plane, angle a*theta, end points to 12 u per component; decided only where the bound (which grows like 1/sin^2 theta next to antipodal inputs) is below 0.05; "
      "non-trivial = theta in (1e-6, pi-1e-6), a not in {0,1}, bound < 1e-2");
 
@@ -245,7 +245,7 @@ template <class T> static void lerp_p(pbt::Ctx& c) {
 	if (a == 0 || a == 1) for (int i = 0; i < 4; ++i) if (!(g[i] == (a == 0 ? x[i] : y[i])))
 		c.failk(key("lerp", tname<T>(), "end-point", a == 0 ? "t=0" : "t=1"), "lerp(x=%s, y=%s, a=%g) component %d = %.17g", qstr(x).c_str(), qstr(y).c_str(), (double)a, i, (double)g[i]);
 }
-REG2(lerp_p, "lerp", 1000000, 30000000,
+REG2(lerp_p, "lerp", 1000000, 60000000,
      "quaternion pairs as for slerp (one third scaled to non-unit length), a in [0,1] only (asserted precondition): 0, 1, 1/2, neighbours, k/8, uniform; every component equals x*(1-a)+y*a evaluated in T (VALUE), "
      "end points exact; non-trivial = x != y and a not in {0,1}");
 
@@ -300,7 +300,7 @@ template <class T> static void shortmix_p(pbt::Ctx& c) {
 	if (!within(c, "shortMix off-plane err/tol", be.plane, bt.total)) c.failk(key("shortMix", ty, "leaves-plane", zk), "shortMix(x=%s, y=%s, a=%.17g)=%s is %.3Lg away from span{x,y} (bound %.3Lg)", qstr(x).c_str(), qstr(y).c_str(), (double)a, qstr(g).c_str(), be.plane, bt.total);
 	if (!within(c, "shortMix outside-arc err/tol", bover, bt.total)) c.failk(key("shortMix", ty, "off-short-arc", zk), "shortMix(x=%s, y=%s, a=%.17g)=%s lies %.3Lg rad outside the shorter arc [0, theta=%.9Lg] between x and +-y (bound %.3Lg)", qstr(x).c_str(), qstr(y).c_str(), (double)a, qstr(g).c_str(), bover, bth, bt.total);
 }
-REG2(shortmix_p, "shortMix", 1000000, 30000000,
+REG2(shortmix_p, "shortMix", 1000000, 60000000,
      "pairs as for slerp, a in [0,1]: a = 0 gives x and a = 1 gives +-y to 12 u per component, otherwise finite, unit length, in span{x,y} and with polar angle inside [0, theta] of the shorter arc (bound of the slerp formula); "
      "non-trivial = a not in {0,1}, theta > 1e-6, bound < 1e-2");
 
@@ -333,7 +333,7 @@ template <class T> static void fastmix_p(pbt::Ctx& c) {
 	if (!within(c, "fastMix value err/tol", dist4(rg, want), tol))
 		c.failk(key("fastMix", ty, "normalized-blend", tr), "fastMix(x=%s, y=%s, a=%.17g)=%s, normalize(x*(1-a)+y*a)=(w=%.17Lg,x=%.17Lg,y=%.17Lg,z=%.17Lg) (distance %.3Lg, bound %.3Lg)", qstr(x).c_str(), qstr(y).c_str(), (double)a, qstr(g).c_str(), want[0], want[1], want[2], want[3], dist4(rg, want), tol);
 }
-REG2(fastmix_p, "fastMix", 1000000, 30000000,
+REG2(fastmix_p, "fastMix", 1000000, 60000000,
      "pairs as for slerp, a as for slerp ([-2,3] incl. 0, 1, 1/2): result against normalize(x*(1-a)+y*a) in long double with the conditioning 1/|blend| (skipped when |blend| < 1e-3), unit length to 40 u; "
      "non-trivial = x != y and a not in {0,1}");
 
